@@ -27,6 +27,7 @@ from ..index import AnalysisError, FuncInfo, Index, call_name, dotted, parents, 
 from ..report import Results
 
 PJ = "jax2onnx/plugins/jax/"
+PE = "jax2onnx/plugins/equinox/eqx/nn/"
 
 # file -> (Spec, domain kind, domain parameter(s), fixed extra parameters)
 RULES: Dict[str, Dict[str, Any]] = {
@@ -57,6 +58,21 @@ RULES: Dict[str, Dict[str, Any]] = {
     PJ + "numpy/unstack.py": dict(spec=Spec("unstack", {"axis": "axis"}), dom="axis", param="axis"),
     PJ + "numpy/take.py": dict(spec=Spec("take", {"axis": "axis"}), dom="axis", param="axis", operands="take", none=True),
     PJ + "numpy/diagonal.py": dict(spec=Spec("diagonal", {"axis1": "axis1", "axis2": "axis2"}), dom="axis12", param="axis1"),
+    PJ + "nn/standardize.py": dict(spec=Spec("along", {"axis": "axes"}), dom="axes", param="axis"),
+    # modules whose operand's trailing axes carry meaning (normalised shape, contracted feature axis, channel / spatial axes):
+    PE + "layer_norm.py": dict(spec=Spec("trailing", {}), dom="none", param="-", operands="x+params"),
+    PE + "rms_norm.py": dict(spec=Spec("trailing", {}), dom="none", param="-", operands="x+params"),
+    PE + "linear.py": dict(spec=Spec("trailing", {}, const={"_k": 1}), dom="none", param="-", operands="x+params"),
+    PE + "conv.py": dict(spec=Spec("trailing", {}), dom="none", param="-", operands="x+params"),
+    PE + "pool.py": dict(spec=Spec("trailing", {}), dom="none", param="-", operands="x+params"),
+    PE + "max_pool.py": dict(spec=Spec("trailing", {}), dom="none", param="-", operands="x+params"),
+    PE + "avg_pool.py": dict(spec=Spec("trailing", {}), dom="none", param="-", operands="x+params"),
+    PE + "adaptive_pool.py": dict(spec=Spec("trailing", {}), dom="none", param="-", operands="x+params", extra={"target_shape": (2,)}),
+    PE + "rotary_positional_embedding.py": dict(spec=Spec("trailing", {}), dom="none", param="-", operands="x+params"),
+    "jax2onnx/plugins/dm_pix/depth_to_space.py": dict(spec=Spec("trailing", {}), dom="none", param="-", operands="x+params"),
+    "jax2onnx/plugins/dm_pix/space_to_depth.py": dict(spec=Spec("trailing", {}), dom="none", param="-", operands="x+params"),
+    PJ + "numpy/matmul.py": dict(spec=Spec("matmul", {}), dom="none", param="-", operands="contract"),
+    PJ + "numpy/dot.py": dict(spec=Spec("dot", {}), dom="none", param="-", operands="contract"),
     PJ + "numpy/linspace.py": dict(spec=Spec("linspace", {"axis": "axis"}), dom="axis_out", param="axis", operands="linspace"),
 }
 
@@ -164,6 +180,8 @@ def _cases(entry: Dict[str, Any], fi: FuncInfo) -> Iterable[Tuple[List[Optional[
     def cls_of(v: Any) -> str:
         if v is None:
             return "none"
+        if v == "-":
+            return "any"
         vs = v if isinstance(v, (tuple, list)) else (v,)
         return "negative" if any(isinstance(x, int) and x < 0 for x in vs) else "nonneg"
 
@@ -176,6 +194,24 @@ def _cases(entry: Dict[str, Any], fi: FuncInfo) -> Iterable[Tuple[List[Optional[
         elif kind_ops == 2:
             bds = [[b0, b1] for b0 in list(range(r + 1)) + [None] for b1 in list(range(r + 1)) + [None] if not (b0 is None and b1 is None)]
             ops = [([L, L], bds)]
+        elif kind_ops == "x+params":
+            a0 = fi.node.args.args[0].arg  # type: ignore[attr-defined]
+            n_ops = 1
+            for st in fi.node.body:  # type: ignore[attr-defined]
+                if isinstance(st, ast.Assign) and isinstance(st.value, ast.Name) and st.value.id == a0 and isinstance(st.targets[0], (ast.Tuple, ast.List)):
+                    n_ops = len(st.targets[0].elts)
+                if isinstance(st, ast.Assign) and isinstance(st.value, ast.Tuple) and st.value.elts and isinstance(st.value.elts[0], ast.Name) and st.value.elts[0].id == a0 \
+                        and isinstance(st.targets[0], ast.Tuple) and isinstance(st.targets[0].elts[0], (ast.Tuple, ast.List)):
+                    n_ops = len(st.targets[0].elts[0].elts)
+            W = tuple(f"w{i}" for i in range(r))
+            ops = [([L] + [W] * (n_ops - 1), [[bd] + [None] * (n_ops - 1) for bd in range(r + 1)])]
+        elif kind_ops == "contract":
+            if r != 1:
+                continue
+            pairs = [(("k",), ("k",)), (("e0", "k"), ("k",)), (("k",), ("k", "e1")), (("e0", "k"), ("k", "e1")), (("b0", "k"), ("k", "b0"))]
+            if entry["spec"].kind == "matmul":
+                pairs.append((("e2", "e0", "k"), ("k", "e1")))
+            ops = [([a_, b_], [[x, y] for x in list(range(len(a_) + 1)) + [None] for y in list(range(len(b_) + 1)) + [None] if not (x is None and y is None)]) for a_, b_ in pairs]
         elif kind_ops == "take":
             I = ("i0",)
             bds = [[b0, b1] for b0 in list(range(r + 1)) + [None] for b1 in (0, 1, None) if not (b0 is None and b1 is None)]
@@ -209,6 +245,8 @@ def _cases(entry: Dict[str, Any], fi: FuncInfo) -> Iterable[Tuple[List[Optional[
             vals = [(x, y) for x in range(-rr, rr) for y in range(-rr, rr) if x % rr != y % rr]
         elif dom == "squeeze":
             vals = []
+        elif dom == "none":
+            vals = ["-"]
         else:
             raise AnalysisError(f"unknown domain kind {dom}")
         if dom == "squeeze":
@@ -234,7 +272,7 @@ def _cases(entry: Dict[str, Any], fi: FuncInfo) -> Iterable[Tuple[List[Optional[
                         if dom == "axis12":
                             p["axis1"], p["axis2"] = v
                             p.setdefault("offset", 0)
-                        else:
+                        elif dom != "none":
                             p[param] = v
                         if k is not None:
                             p["keepdims"] = k
@@ -242,7 +280,7 @@ def _cases(entry: Dict[str, Any], fi: FuncInfo) -> Iterable[Tuple[List[Optional[
 
 
 def run_batch_rules(res: Results, idx: Index, tier: str) -> None:
-    res.rule("R-C10e", "batching rules address the axes of one example: no sink acts on the batch axis, the returned batch dimension names it, and the per-example layout of the result equals the original call's (axis-label abstract evaluation, ranks 1..3)", floor=60)
+    res.rule("R-C10e", "batching rules address the axes of one example: no sink acts on the batch axis, the returned batch dimension names it, and the per-example layout of the result equals the original call's (axis-label abstract evaluation, ranks 1..3)", floor=130)
     res.assumptions += ["R-C10e: per-example ranks 1..3, one batch axis; axis arithmetic is evaluated exactly on that domain, values computed by the operators are not"]
     n_rules = 0
     n_cases = 0
@@ -289,6 +327,47 @@ def run_batch_rules(res: Results, idx: Index, tier: str) -> None:
                     res.unresolved("R-C10e", site, key, by["UNRESOLVED"][0], fi.qualname)
                 elif n_ok:
                     res.ok("R-C10e", site, key, f"{n_ok} cases; e.g. {by['OK'][0][:200]}", fi.qualname)
+    # rules that hand the operands to the shared broadcasting batcher: the batcher itself is evaluated through each of
+    # them with operands of equal and of different rank (numpy broadcasting aligns trailing axes)
+    bspec = Spec("broadcast", {})
+    n_b = 0
+    for m in idx.product_modules():
+        if ".plugins." not in m.name or "primitive_batchers" not in m.src:
+            continue
+        for node in ast.walk(m.tree):
+            if not (isinstance(node, ast.Assign) and len(node.targets) == 1 and isinstance(node.targets[0], ast.Subscript) and "primitive_batchers" in (dotted(node.targets[0].value) or "")):
+                continue
+            v = node.value
+            rule = m.funcs.get(v.id) if isinstance(v, ast.Name) else None
+            if isinstance(v, ast.Call) and isinstance(v.func, ast.Name) and m.funcs.get(v.func.id) is not None:
+                inner = [f for q, f in m.funcs.items() if q.startswith(m.funcs[v.func.id].qualname + ".<locals>.")]
+                rule = inner[0] if inner else None
+            if rule is None or not _delegates_to_generic(rule) or m.rel in RULES:
+                continue
+            owner = _prim_owner_name(node.targets[0].slice) or "?"
+            n_b += 1
+            buckets2: Dict[str, Dict[str, List[str]]] = {}
+            E2, E1, E0 = ("e0", "e1"), ("e1",), ()
+            EB = ("b0", "e1")   # an extent equal to the batch size: equal shapes do not imply equal layouts
+            for labels in ([E2, E2], [E2, E1], [E1, E2], [E2, E0], [E1, E1], [E2, E1, E2], [E2, E2, E1], [EB, EB]):
+                choices = [list(range(len(L) + 1)) + [None] for L in labels]
+                for bds in itertools.product(*choices):
+                    if all(b is None for b in bds):
+                        continue
+                    st, de = run_rule(idx, rule, bspec, list(labels), list(bds), {})
+                    n_cases += 1
+                    cls = "equal-rank" if len({len(L) for L in labels}) == 1 else "mixed-rank"
+                    buckets2.setdefault(cls, {}).setdefault(st, []).append(f"example axes {' / '.join(str(L) for L in labels)}, batch dims {tuple(bds)}: {de}")
+            for cls, by in sorted(buckets2.items()):
+                key = f"{m.rel}::{rule.name}::{owner}::broadcast::{cls}"
+                if by.get("VIOLATION"):
+                    ex = by["VIOLATION"]
+                    res.violation("R-C10e", rule.site, key, f"{len(ex)} of {sum(len(x) for x in by.values())} cases wrong, e.g. " + " | ".join(ex[:2]), rule.qualname)
+                elif by.get("UNRESOLVED"):
+                    res.unresolved("R-C10e", rule.site, key, by["UNRESOLVED"][0], rule.qualname)
+                else:
+                    res.ok("R-C10e", rule.site, key, f"{len(by.get('OK', []))} cases; e.g. {by['OK'][0][:200]}", rule.qualname)
+    res.analysed["broadcast_batcher_rules_evaluated"] = n_b
     res.analysed["batching_rules_evaluated"] = n_rules
     res.analysed["batching_rule_cases"] = n_cases
     if n_rules < 20:
@@ -305,3 +384,212 @@ def run_batch_rules(res: Results, idx: Index, tier: str) -> None:
     st, de = run_rule(idx, cfi, Spec("preserve", {"axis": "axis"}), [("e0", "e1")], [0], {"axis": -1})
     st2, _ = run_rule(idx, cfi, Spec("preserve", {"axis": "axis"}), [("e0", "e1")], [0], {"axis": 1})
     res.control("R-C10e", "a synthetic rule that shifts the axis by one without canonicalising a negative value is reported for axis=-1 and accepted for axis=1", st == "VIOLATION" and st2 == "OK", de)
+
+
+# ---------------------------------------------------------------------------------------------- R-C10f
+# Operators whose result at one position depends on other positions along some axis: a primitive lowered to one of
+# them is not position-independent, so a batching rule that leaves the batch dimension where it is (or only broadcasts
+# the operands) applies the operation across examples for some in_axes.  From the operator specification.
+AXIS_DEPENDENT_OPS = {
+    "ReduceSum", "ReduceMean", "ReduceMax", "ReduceMin", "ReduceProd", "ReduceL1", "ReduceL2", "ReduceLogSum", "ReduceLogSumExp", "ReduceSumSquare",
+    "Softmax", "LogSoftmax", "Hardmax", "MatMul", "Gemm", "Einsum", "Conv", "ConvTranspose", "MaxPool", "AveragePool", "GlobalAveragePool", "GlobalMaxPool", "LpPool",
+    "LayerNormalization", "RMSNormalization", "GroupNormalization", "InstanceNormalization", "BatchNormalization", "LpNormalization", "MeanVarianceNormalization",
+    "CumSum", "ArgMax", "ArgMin", "TopK", "Transpose", "OneHot", "Trilu", "Pad", "Tile", "Resize", "DepthToSpace", "SpaceToDepth", "Attention", "RotaryEmbedding",
+    "Unique", "NonZero", "Det", "ReverseSequence", "Compress", "Flatten",
+}
+# shape plumbing: whether these act on data positions depends on how they are used
+PLUMBING_OPS = {"Reshape", "Unsqueeze", "Squeeze", "Concat", "Gather", "GatherND", "GatherElements", "Slice", "Split", "ScatterND", "ScatterElements", "Expand", "Shape", "Size", "Range",
+                "Constant", "ConstantOfShape"}
+GENERIC_REGISTRARS = {"register_unary_elementwise_batch_rule"}
+GENERIC_BATCHERS = {"broadcast_batcher_compat"}
+
+
+def _prim_owner_name(e: ast.AST) -> Optional[str]:
+    d = dotted(e) or ""
+    return d[: -len("._PRIM")] if d.endswith("._PRIM") else None
+
+
+def _delegates_to_generic(fi: FuncInfo) -> bool:
+    """`return broadcast_batcher_compat(P._PRIM, args, dims, **params)` as the whole body (imports / docstring aside)"""
+    rets = [n for n in walk_no_nested(fi.node) if isinstance(n, ast.Return) and n.value is not None]
+
+    def core(v: ast.AST) -> ast.AST:
+        while isinstance(v, ast.Call) and (call_name(v) or "").split(".")[-1] == "cast" and len(v.args) == 2:
+            v = v.args[1]
+        return v
+    return bool(rets) and all(isinstance(core(r.value), ast.Call) and (call_name(core(r.value)) or "").split(".")[-1] in GENERIC_BATCHERS for r in rets)
+
+
+def _passthrough_rule(idx: Index, fi: FuncInfo) -> Optional[bool]:
+    """Does the rule re-bind the operand with the batch dimension left where it is and hand that dimension back?
+    Decided by evaluating it on a labelled operand whose batch axis is in the middle."""
+    from ..batchsem import BatchEval, arr, is_arr, labels_of
+    from ..symeval import Closure, EvalRaise, Unsupported
+    spec = Spec("elementwise", {})
+    a = fi.node.args  # type: ignore[attr-defined]
+    n_ops = 1
+    for st in fi.node.body:  # type: ignore[attr-defined]
+        if isinstance(st, ast.Assign) and isinstance(st.value, ast.Name) and st.value.id == a.args[0].arg and isinstance(st.targets[0], (ast.Tuple, ast.List)):
+            n_ops = len(st.targets[0].elts)
+        if isinstance(st, ast.Assign) and isinstance(st.value, ast.Tuple) and st.value.elts and isinstance(st.value.elts[0], ast.Name) and st.value.elts[0].id == a.args[0].arg and isinstance(st.targets[0], ast.Tuple) and isinstance(st.targets[0].elts[0], (ast.Tuple, ast.List)):
+            n_ops = len(st.targets[0].elts[0].elts)
+    ops = [arr(("e0", "B", "e1"))] + [arr((f"w{i}",)) for i in range(n_ops - 1)]
+    bds: List[Optional[int]] = [1] + [None] * (n_ops - 1)
+    kw = {x.arg: Opaque(x.arg) for x, d in zip(a.kwonlyargs, a.kw_defaults) if d is None}
+    ev = BatchEval(idx, spec)
+    try:
+        r = Closure(ev, fi.node, {}, fi, 0)(tuple(ops), tuple(bds), **kw)
+    except (Unsupported, EvalRaise, Exception):
+        return None
+    if not (isinstance(r, (tuple, list)) and len(r) == 2 and is_arr(r[0])):
+        return None
+    sink_layouts = [l for _, _, l, _ in ev.sinks]
+    return r[1] == 1 and labels_of(r[0]) == ("e0", "B", "e1") and all(l == ("e0", "B", "e1") for l in sink_layouts) and bool(sink_layouts)
+
+
+# Library callables (by the name a plugin patches) whose result at one position depends on that position of the operand
+# only.  numpy's own element-wise ufuncs are recognised from the installed numpy; this table adds what numpy does not
+# define.  One line of reason per family.
+ELEMENTWISE_TABLE = {
+    # jax.nn activations: scalar functions applied to every element
+    "relu", "relu6", "sigmoid", "silu", "swish", "gelu", "elu", "celu", "selu", "softplus", "softsign", "tanh", "leaky_relu", "hard_sigmoid", "hard_swish", "hard_silu",
+    "hard_tanh", "mish", "log_sigmoid", "sparse_plus", "sparse_sigmoid", "squareplus", "thresholded_relu", "identity", "log1mexp", "soft_sign",
+    # selection / clamping with numpy broadcasting
+    "where", "select", "clip", "prelu",
+    # each element of x is located in a table that is not batched (the rule rejects batched tables)
+    "digitize", "interp",
+    # jax.numpy spellings of numpy ufuncs under another name
+    "pow", "bitwise_left_shift", "bitwise_right_shift", "bitwise_invert", "invert", "acos", "acosh", "asin", "asinh", "atan", "atanh", "atan2", "spacing",
+    # modules that apply a scalar function / nothing per element
+    "Identity", "Dropout", "Lambda", "PReLU",
+    # every index is looked up on its own; the embedding axis is appended behind the operand's axes
+    "Embedding",
+}
+# Library callables with core dimensions (the operand's LAST axes carry meaning): a rule that leaves the batch
+# dimension where it is is right only for in_axes that keep those axes in place.
+CORE_DIMS_TABLE = {
+    "dot": "contracts the last axis of a with the second-to-last of b",
+    "matmul": "numpy generalised ufunc (n?,k),(k,m?)->(n?,m?)",
+    "vdot": "contracts flattened operands", "inner": "contracts last axes", "outer": "flattens both operands", "tensordot": "contracts named axes",
+    "LayerNorm": "normalises over the trailing axes matching `shape`", "RMSNorm": "normalises over the trailing axes matching `shape`", "Linear": "contracts the last axis with the weight",
+    "GroupNorm": "groups the channel axis", "Conv": "channel and spatial axes by position",
+}
+AXIS_PARAMS = {"axis", "axes", "dimension", "dimensions", "dims", "axis1", "axis2"}
+
+
+def _library_verdict(target: Optional[str], attr: Optional[str]) -> Tuple[str, str]:
+    """(OK | VIOLATION | UNRESOLVED, reason) for "is this library callable position-independent in its operand?" """
+    import inspect
+    import numpy as _np
+    if not attr:
+        return "UNRESOLVED", "patched library callable not resolved"
+    name = attr if attr != "__call__" else (target or "").split(".")[-1]
+    uf = getattr(_np, name, None)
+    if isinstance(uf, _np.ufunc):
+        if uf.signature is None:
+            return "OK", f"numpy.{name} is an element-wise ufunc"
+        return "VIOLATION", f"numpy.{name} is a generalised ufunc with core dimensions {uf.signature}"
+    if name in CORE_DIMS_TABLE:
+        return "VIOLATION", f"`{name}` {CORE_DIMS_TABLE[name]}"
+    try:
+        from ..sigs import library_object
+        obj, _ = library_object(target, attr)
+        ps = set(inspect.signature(obj).parameters) if obj is not None else set()
+    except Exception:
+        ps = set()
+    hit = sorted(ps & AXIS_PARAMS)
+    if hit:
+        return "VIOLATION", f"`{(target or '?')}.{attr}` takes `{hit[0]}`: it acts along an axis of the operand"
+    if name in ELEMENTWISE_TABLE:
+        return "OK", f"`{name}` is element-wise (reference table)"
+    return "UNRESOLVED", f"`{(target or '?')}.{attr}` is in neither reference table"
+
+
+def run_generic_batchers(res: Results, idx: Index, tier: str) -> None:
+    from ..callgraph import get_callgraph
+    from ..emit import enumerate_sites
+    from ..tables.onnx_ops import get_history
+    from .c02 import POINTWISE_OPS
+    res.rule("R-C10f", "batching rules that leave the batch dimension where it is (generic element-wise / broadcasting batchers, plain re-binds) are installed only for primitives whose lowering is point-wise", floor=60)
+    cg = get_callgraph(idx)
+    hist = get_history()
+    sites, _ = enumerate_sites(idx, cg, set(hist.hist))
+    by_func: Dict[int, List[Any]] = {}
+    for s in sites:
+        # an operator name that travels through helper parameters belongs to the function that supplied it
+        f = s.origin_func if s.chain else s.func
+        if f is not None:
+            by_func.setdefault(id(f.node), []).append(s)
+    n = 0
+    from ..patchspecs import collect_specs
+    specs, _ = collect_specs(idx)
+    spec_of: Dict[Tuple[str, str], Tuple[Optional[str], Optional[str]]] = {}
+    for sp in specs:
+        if sp.cls is not None and sp.target and sp.attr:
+            spec_of.setdefault((sp.module.rel, sp.cls.name), (sp.target, sp.attr))
+    for m in idx.product_modules():
+        if ".plugins." not in m.name:
+            continue
+        regs: List[Tuple[str, str, int, Optional[FuncInfo]]] = []   # (owner class, style, line, rule)
+        for node in ast.walk(m.tree):
+            if isinstance(node, ast.Call) and (call_name(node) or "").split(".")[-1] in GENERIC_REGISTRARS and node.args:
+                o = _prim_owner_name(node.args[0])
+                if o:
+                    regs.append((o, "generic unary element-wise batcher", node.lineno, None))
+            if isinstance(node, ast.Assign) and len(node.targets) == 1 and isinstance(node.targets[0], ast.Subscript) and "primitive_batchers" in (dotted(node.targets[0].value) or ""):
+                o = _prim_owner_name(node.targets[0].slice)
+                if not o:
+                    continue
+                v = node.value
+                rule = m.funcs.get(v.id) if isinstance(v, ast.Name) else None
+                if isinstance(v, ast.Call) and isinstance(v.func, ast.Name):
+                    maker = m.funcs.get(v.func.id)
+                    inner = [f for q, f in m.funcs.items() if maker is not None and q.startswith(maker.qualname + ".<locals>.")]
+                    rule = inner[0] if inner else None
+                if rule is None:
+                    continue
+                if _delegates_to_generic(rule):
+                    regs.append((o, "broadcasting batcher (broadcast_batcher_compat)", node.lineno, rule))
+                else:
+                    pt = _passthrough_rule(idx, rule)
+                    if pt:
+                        regs.append((o, f"`{rule.name}` re-binds the operand and returns the incoming batch dimension", node.lineno, rule))
+        for owner, style, line, rule in regs:
+            c = m.classes.get(owner)
+            if c is None:
+                continue
+            lower = idx.resolve_method(c, "lower")
+            key = f"{m.rel}::{owner}::position-independent-batcher"
+            site = f"{m.rel}:{line}"
+            n += 1
+            if lower is None:
+                res.unresolved("R-C10f", site, key, "the plugin has no lower() to read the operators from", owner)
+                continue
+            # the loop-extent override helpers (_axis0_utils) are shared by every binary operator and decided by C06 R-C06g
+            funcs = [f for f in cg.reachable_from(lower, depth=4) if not f.module.rel.endswith(("_axis0_utils.py", "_loop_extent_meta.py"))]
+            for f in list(funcs):
+                funcs.extend(f.nested().values())
+            ops: Set[str] = set()
+            dyn = 0
+            for f in funcs:
+                for s in by_func.get(id(f.node), []):
+                    if s.op is None:
+                        dyn += 1
+                    else:
+                        ops.add(s.op)
+            axis_ops = sorted(ops & AXIS_DEPENDENT_OPS)
+            tgt = spec_of.get((m.rel, owner))
+            if tgt is None:
+                fn_name = next((st.value.value for st in c.node.body if isinstance(st, (ast.Assign, ast.AnnAssign)) and isinstance(st.value, ast.Constant) and isinstance(st.value.value, str)
+                                and "_FUNC_NAME" in ast.unparse(st.targets[0] if isinstance(st, ast.Assign) else st.target)), None)
+                if fn_name:
+                    tgt = ("jax.numpy" if "/numpy/" in m.rel else "jax.nn" if "/nn/" in m.rel else None, fn_name)
+            st, why = _library_verdict(*(tgt or (None, None)))
+            extra = f"; its lowering emits {', '.join(axis_ops)}" if axis_ops else ""
+            if st == "VIOLATION":
+                res.violation("R-C10f", site, key, f"{style}, but {why}{extra}: with the batch dimension left where it is the operation is applied across examples for some vmap in_axes / operand ranks", owner)
+            elif st == "OK":
+                res.ok("R-C10f", site, key, f"{style}; {why}", owner)
+            else:
+                res.unresolved("R-C10f", site, key, f"{style}; {why}{extra}", owner)
+    res.analysed["position_independent_batchers"] = n
